@@ -144,6 +144,8 @@ class Ctx:
         self._cur_digest = codec.digest(case) if case is not None else None
         callforms.set_mode(int(self._cur_digest[:6], 16) if self._cur_digest else 0)
         self._cur_tags.add(f"call_form:{callforms.get_mode()}")
+        if callforms.scalars_0d():
+            self._cur_tags.add("float_args_as_0d_arrays")
 
     def end(self, case):
         self.evaluations += 1
